@@ -975,6 +975,14 @@ impl OptionsBuilder {
             false
         } else if !self.inf_str_is_valid() {
             false
+        } else if unwrap_or_max_usize(self.max_significant_digits)
+            < unwrap_or_zero_usize(self.min_significant_digits)
+        {
+            false
+        } else if unwrap_or_zero_i32(self.negative_exponent_break) > 0 {
+            false
+        } else if unwrap_or_zero_i32(self.positive_exponent_break) < 0 {
+            false
         } else {
             true
         }
